@@ -7,7 +7,8 @@
  *        [ca=1|0|-] [pathlen=<n>] [ku=certSign|digSig|certSign+digSig|-] [kucrit=0|1]
  *        [eku=server|client|other|-] [ekucrit=1] [nb=<days>] [na=<days>] [san=DNS:x,IP:1.2.3.4,email:a@b,URI:u]
  *        [critunk=1] [aki=match|mismatch|-] [ski=1|0] [sig=ok|corrupt|copy:<othercert>|tbsmod] [nocn=1]
- * Files <dir>/<out>.pem (cert) and <dir>/<k>.key.pem are written.  Validity is relative to BASE.
+ *   crl <out> iss=<cn> signkey=<k> [revoked=<serial>,..] [last=<days>] [next=<days>] [akicert=<cert>] [md=..]
+ * Files <dir>/<out>.pem (cert), <dir>/<k>.key.pem and <dir>/<out>.crl (DER) are written.  Validity is relative to BASE.
  */
 #include <stdio.h>
 #include <stdlib.h>
@@ -95,6 +96,61 @@ static void add_ext(X509 *x, X509 *issuer, int nid, const char *val)
     if (!e) { fprintf(stderr, "certgen: bad ext %d %s\n", nid, val); ERR_print_errors_fp(stderr); exit(2); }
     X509_add_ext(x, e, -1);
     X509_EXTENSION_free(e);
+}
+
+/* crl <out> iss=<cn> signkey=<k> [revoked=<serial>,<serial>..] [last=<days>] [next=<days>] [akicert=<cert>] [md=sha256|sha1]
+   writes <dir>/<out>.crl (DER) - lastUpdate / nextUpdate relative to BASE */
+static void do_crl(char **tok, int n)
+{
+    X509_CRL *c = X509_CRL_new();
+    EVP_PKEY *sk = load_key(opt(tok, n, "signkey"));
+    const EVP_MD *md = EVP_sha256();
+    const char *v;
+    long last = -10, next = 30;
+    char p[512]; FILE *f;
+    ASN1_TIME *t;
+    X509_NAME *in = mkname(opt(tok, n, "iss"), 0);
+    if ((v = opt(tok, n, "md")) && !strcmp(v, "sha1")) md = EVP_sha1();
+    if ((v = opt(tok, n, "last"))) last = atol(v);
+    if ((v = opt(tok, n, "next"))) next = atol(v);
+    X509_CRL_set_version(c, 1);
+    X509_CRL_set_issuer_name(c, in);
+    t = ASN1_TIME_adj(NULL, BASE, (int) last, 0); X509_CRL_set1_lastUpdate(c, t); ASN1_TIME_free(t);
+    t = ASN1_TIME_adj(NULL, BASE, (int) next, 0); X509_CRL_set1_nextUpdate(c, t); ASN1_TIME_free(t);
+    if ((v = opt(tok, n, "revoked")) && *v)
+    {
+        char tmp[512], *q;
+        snprintf(tmp, sizeof(tmp), "%s", v);
+        for (q = strtok(tmp, ","); q; q = strtok(NULL, ","))
+        {
+            X509_REVOKED *r = X509_REVOKED_new();
+            ASN1_INTEGER *si = ASN1_INTEGER_new();
+            ASN1_INTEGER_set(si, atol(q));
+            X509_REVOKED_set_serialNumber(r, si);
+            t = ASN1_TIME_adj(NULL, BASE, -5, 0); X509_REVOKED_set_revocationDate(r, t); ASN1_TIME_free(t);
+            X509_CRL_add0_revoked(c, r);
+            ASN1_INTEGER_free(si);
+        }
+    }
+    if ((v = opt(tok, n, "akicert")))
+    {
+        X509 *ic = load_cert(v);
+        X509V3_CTX ctx;
+        X509_EXTENSION *e;
+        X509V3_set_ctx_nodb(&ctx);
+        X509V3_set_ctx(&ctx, ic, NULL, NULL, c, 0);
+        e = X509V3_EXT_conf_nid(NULL, &ctx, NID_authority_key_identifier, "keyid:always");
+        if (e) { X509_CRL_add_ext(c, e, -1); X509_EXTENSION_free(e); }
+        X509_free(ic);
+    }
+    X509_CRL_sort(c);
+    if (!X509_CRL_sign(c, sk, EVP_PKEY_id(sk) == EVP_PKEY_ED25519 ? NULL : md)) { ERR_print_errors_fp(stderr); exit(2); }
+    snprintf(p, sizeof(p), "%s/%s.crl", g_dir, tok[1]);
+    f = fopen(p, "wb");
+    if (!f) { perror(p); exit(2); }
+    i2d_X509_CRL_fp(f, c);
+    fclose(f);
+    X509_CRL_free(c); X509_NAME_free(in); EVP_PKEY_free(sk);
 }
 
 static void do_cert(char **tok, int n)
@@ -268,6 +324,7 @@ int main(int argc, char **argv)
         while (q && n < 64) { tok[n++] = q; q = strtok(NULL, " \t\r\n"); }
         if (!n || tok[0][0] == '#') continue;
         if (!strcmp(tok[0], "key")) do_key(tok, n);
+        else if (!strcmp(tok[0], "crl")) do_crl(tok, n);
         else if (!strcmp(tok[0], "cert")) do_cert(tok, n);
         else { fprintf(stderr, "certgen: unknown %s\n", tok[0]); return 2; }
     }
